@@ -129,6 +129,10 @@ fn cons_scenario(thorough: bool) -> Scenario {
         "CREATE TABLE s (id INT NOT NULL, v INT, w INT NOT NULL)",
         "CREATE TABLE s2 (a INT NOT NULL, b INT NOT NULL)",
         "CREATE TABLE se (id INT, v INT)",
+        // a UNIQUE *prefix* index: the executor's pre-validation compares whole values, the storage
+        // layer the truncated key — a collision of prefixes only is caught late, inside the batch
+        "CREATE TABLE tags (id INT, name VARCHAR(20))",
+        "CREATE UNIQUE INDEX tags_n3 ON tags (name(3))",
     ]);
     let setup = strs(&[
         "INSERT INTO d VALUES (1, 10, 0)",
@@ -140,6 +144,23 @@ fn cons_scenario(thorough: bool) -> Scenario {
         "INSERT INTO e VALUES (1, 10)",
     ]);
     let mut cases: Vec<Case> = vec![];
+    // multi-row VALUES into `tags` whose k-th row collides with an existing row by prefix only (no model
+    // for strings: only "a failed statement changes nothing" is judged)
+    for n in 2..=3usize {
+        for k in 1..=n {
+            let names = ["xyz-two", "klm-six", "pqr-ten"];
+            let rows: Vec<String> = (1..=n).map(|i| format!("({}, '{}')", 10 + i, if i == k { "abc-three" } else { names[i - 1] })).collect();
+            cases.push(Case {
+                prep: strs(&["DELETE FROM tags", "INSERT INTO tags VALUES (1, 'abc-one')"]),
+                stmt: format!("INSERT INTO tags VALUES {}", rows.join(", ")),
+                op: None,
+                kind: "insert_values_prefix_unique",
+                fault: "unique_prefix_dup_existing",
+                n,
+                k,
+            });
+        }
+    }
     let faults = ["none", "pk_dup_existing", "pk_dup_batch", "unique_dup_existing", "unique_dup_batch", "not_null", "check", "null_pk"];
     let max_n: usize = if thorough { 4 } else { 3 };
     for n in 1..=max_n {
